@@ -121,7 +121,7 @@ pub struct FuzzFail {
 pub fn game_target(data: &[u8], only: Option<&str>) -> Result<(), FuzzFail> {
     let allow_hanging = only.map(|id| crate::registry::HANGING_OK.contains(&id)).unwrap_or(false);
     let (case, profile) = decode_game(data, allow_hanging);
-    let opts = WalkOpts { profile, expand: None, follow_norep: false, inject: crate::drive::Inject::No, interfere: false };
+    let opts = WalkOpts { profile, expand: None, follow_norep: false, inject: crate::drive::Inject::No, interfere: false, play_on: false };
     let mut st = Stats::default();
     st.frozen = true;
     let mut all;
